@@ -90,6 +90,38 @@ def _return_shape(fn):
     return "RSumSites (RMul (RLog (RDot RFreqs (RSumCats (RMul RProps (RPartials RRootOfLastTriple))))) RWeights)"
 
 
+def _return_shape_rescaled(fn):
+    rets = [s for s in fn.body if isinstance(s, ast.Return)]
+    if len(rets) != 1:
+        _fail(fn, "expected exactly one return")
+    want = ("torch.sum((torch.log(freqs @ torch.sum(props * partials[post_indexing[-1][0]], dim=-3)) + "
+            "torch.cat(scalers, -2).log().sum(dim=-2).unsqueeze(-2)) * weights, dim=-1)")
+    got = ast.unparse(rets[0].value)
+    if got != want:
+        _fail(rets[0], "unexpected return expression of the rescaled recursion")
+    # sum over sites of weight * ( ln(freqs . sum_k props_k partials[root]_k) + sum over rescaled nodes of ln scaler )
+    return ("RSumSites (RMul (RAdd (RLog (RDot RFreqs (RSumCats (RMul RProps (RPartials RRootOfLastTriple))))) "
+            "RSumLogScalers) RWeights)")
+
+
+def _rescaled_body(stmts, where):
+    """partial = <update>; scaler, _ = torch.max(partial.view(...), -2, keepdim=True); scalers.append(scaler);
+    partials[node] = partial / scaler.unsqueeze(-2)   -> Coq term of <update>"""
+    if len(stmts) < 4:
+        _fail(where, "rescaled loop body too short")
+    a, b, c, d = stmts[:4]
+    if not (isinstance(a, ast.Assign) and ast.unparse(a.targets[0]) == "partial"):
+        _fail(a, "expected `partial = ...`")
+    want_b = "scaler, _ = torch.max(partial.view(*partial.shape[:-3], -1, *partial.shape[-1:]), -2, keepdim=True)"
+    if ast.unparse(b) != want_b:
+        _fail(b, "unexpected scaler (expected the maximum over categories x states, per site)")
+    if ast.unparse(c) != "scalers.append(scaler)":
+        _fail(c, "the scaler is not recorded")
+    if ast.unparse(d) != "partials[node] = partial / scaler.unsqueeze(-2)":
+        _fail(d, "the stored partial is not partial / scaler")
+    return _expr(a.value, {}), stmts[4:]
+
+
 def _tip_states_prelude(fn):
     """tip_count and the augmented matrices of the tip-state variant"""
     src = [ast.unparse(s) for s in fn.body if isinstance(s, ast.Assign)]
@@ -123,6 +155,41 @@ def translate(path=None):
             "Definition g_update (mats : nat -> mat (T:=T)) (partials : nat -> vec (T:=T)) (node left right : nat) : vec (T:=T) :=",
             "  " + _expr(a.value, {}) + ".", "",
             "Definition g_return : rshape := " + _return_shape(f) + ".", ""]
+    # ---- rescaled recursion (tip partials): every node is divided by its scaler
+    f = fns.get("calculate_treelikelihood_discrete_rescaled")
+    if f is None:
+        raise TranslateError("calculate_treelikelihood_discrete_rescaled not found")
+    if [ast.unparse(s_) for s_ in f.body if isinstance(s_, ast.Assign)] != ["scalers = []"]:
+        _fail(f, "unexpected set-up of the rescaled recursion")
+    lp = _find_loop(f)
+    num, rest = _rescaled_body(lp.body, lp)
+    if rest:
+        _fail(lp, "unexpected statements after the rescaled update")
+    out += ["(* numerator of partials[node] = partial / scaler in calculate_treelikelihood_discrete_rescaled *)",
+            "Definition g_update_rescaled_num (mats : nat -> mat (T:=T)) (partials : nat -> vec (T:=T)) (node left right : nat) : vec (T:=T) :=",
+            "  " + num + ".", "",
+            "Definition g_return_rescaled : rshape := " + _return_shape_rescaled(f) + ".", ""]
+    # ---- the evaluation that detects the underflow: only nodes below the threshold (or above a rescaled node)
+    f = fns.get("calculate_treelikelihood_discrete_safe")
+    if f is None:
+        raise TranslateError("calculate_treelikelihood_discrete_safe not found")
+    if [ast.unparse(s_) for s_ in f.body if isinstance(s_, ast.Assign)] != \
+            ["scalers = []", "rescaled = [False] * (post_indexing[-1][0] + 1)"]:
+        _fail(f, "unexpected set-up of the safe recursion")
+    lp = _find_loop(f)
+    if not (len(lp.body) == 1 and isinstance(lp.body[0], ast.If) and not lp.body[0].orelse):
+        _fail(lp, "the safe loop is not a single conditional")
+    cond = ast.unparse(lp.body[0].test)
+    want_cond = ("rescaled[left] or rescaled[right] or torch.any(torch.max(partials[node], -2, keepdim=True)[0] < threshold)")
+    if cond != want_cond:
+        _fail(lp.body[0], "unexpected condition for rescaling a node")
+    num2, rest = _rescaled_body(lp.body[0].body, lp.body[0])
+    if [ast.unparse(s_) for s_ in rest] != ["rescaled[node] = True"]:
+        _fail(lp.body[0], "the rescaled node is not marked")
+    out += ["(* the same for calculate_treelikelihood_discrete_safe (applied to the nodes it decides to rescale) *)",
+            "Definition g_update_safe_num (mats : nat -> mat (T:=T)) (partials : nat -> vec (T:=T)) (node left right : nat) : vec (T:=T) :=",
+            "  " + num2 + ".", "",
+            "Definition g_return_safe : rshape := " + _return_shape_rescaled(f) + ".", ""]
     # ---- tip states
     f = fns.get("calculate_treelikelihood_tip_states_discrete")
     if f is None:
